@@ -46,4 +46,44 @@ def run (s : Sys) (schedule : List Nat) : Sys := schedule.foldl step s
 /-- every process is about to run a locked operation on the object `ids k` -/
 def init (ids : Nat → Nat) : Sys := { locks := [], procs := fun k => { id := ids k, phase := .idle, mutations := 0 } }
 
+/-! ### with object states: a locked operation reads the object when it has the lock and writes the
+    result of its body before releasing it -/
+
+structure ProcS where
+  id : Nat
+  phase : Phase
+  snap : Nat               -- the object state the body started from
+  deriving DecidableEq, Repr
+
+structure SysS where
+  locks : List Nat
+  store : Nat → Nat        -- object ↦ state
+  procs : Nat → ProcS
+  log : List Nat           -- the processes that completed, in the order in which they did
+
+/-- process `i` (working on `ids i`, body `fs i`) takes a step -/
+def stepS (fs : Nat → Nat → Nat) (s : SysS) (i : Nat) : SysS :=
+  let p := s.procs i
+  match p.phase with
+  | .idle =>
+    if p.id ∈ s.locks then { s with procs := fun k => if k = i then { p with phase := .refused } else s.procs k }
+    else { s with locks := p.id :: s.locks,
+                  procs := fun k => if k = i then { p with phase := .holding, snap := s.store p.id } else s.procs k }
+  | .holding =>
+    { locks := s.locks.erase p.id,
+      store := fun o => if o = p.id then fs i p.snap else s.store o,
+      procs := fun k => if k = i then { p with phase := .done } else s.procs k,
+      log := s.log ++ [i] }
+  | .done => s
+  | .refused => s
+
+def runS (fs : Nat → Nat → Nat) (s : SysS) (schedule : List Nat) : SysS := schedule.foldl (stepS fs) s
+
+def initS (ids : Nat → Nat) (store0 : Nat → Nat) : SysS :=
+  { locks := [], store := store0, procs := fun k => { id := ids k, phase := .idle, snap := 0 }, log := [] }
+
+/-- the state object `o` would have if the operations in `log` that work on it ran one after the other -/
+def serial (ids : Nat → Nat) (fs : Nat → Nat → Nat) (store0 : Nat → Nat) (log : List Nat) (o : Nat) : Nat :=
+  (log.filter (fun i => ids i = o)).foldl (fun st i => fs i st) (store0 o)
+
 end Rocfl.Lock
